@@ -169,7 +169,6 @@ Theorem l_as_set_NoDup l : NoDup (as_set l).
 Proof. apply sort_strs_NoDup. apply dedup_NoDup. Qed.
 
 (* values of key k in an ordered dict, [] when absent *)
-Definition vals (k : str) (m : attrs) : list str := match dget k m with Some v => v | None => [] end.
 
 Lemma dget_dset_same k v m : dget k (dset k v m) = Some v.
 Proof.
